@@ -29,7 +29,8 @@ type VerifCodecCell struct {
 	Key       uint32
 	Deleted   bool
 	ValueSize uint32
-	Value     []byte
+	ValueLen  int    // len(valueBytes)
+	Value     []byte // copy of valueBytes; nil when longer than a page (a page decoded with a garbage length field)
 	Child     uint64
 }
 
@@ -132,7 +133,11 @@ func (v *VerifCodecNode) Content() (c VerifCodecContent, err error) {
 		c.Phys = len(n.leafCells)
 		for _, o := range n.offsets {
 			lc := n.leafCells[o]
-			c.Cells = append(c.Cells, VerifCodecCell{Key: lc.key, Deleted: lc.deleted, ValueSize: lc.valueSize, Value: append([]byte{}, lc.valueBytes...)})
+			cell := VerifCodecCell{Key: lc.key, Deleted: lc.deleted, ValueSize: lc.valueSize, ValueLen: len(lc.valueBytes)}
+			if len(lc.valueBytes) <= pageSize {
+				cell.Value = append([]byte{}, lc.valueBytes...)
+			}
+			c.Cells = append(c.Cells, cell)
 		}
 	} else {
 		c.Phys = len(n.internalCells)
